@@ -50,6 +50,8 @@ def type_size(t):
                 "k8": 1, "k16": 2, "k32": 4, "k64": 8}[t]
     if t == "mmx64":
         return 8
+    if t == "mmx32":
+        return 4
     m = re.match(r"([iuf]\d+)x(\d+)$", t)
     return ELEM_SIZE[m.group(1)] * int(m.group(2))
 
@@ -60,7 +62,7 @@ def type_class(t):
         return t[0].replace("u", "i") + t[1:] if t[0] in "iu" else t
     if t.startswith("k"):
         return "mask"
-    if t == "mmx64":
+    if t in ("mmx64", "mmx32"):
         return "mmx"
     return "v%d" % (type_size(t) * 8)
 
